@@ -6,6 +6,7 @@ import "sync"
 
 func init() {
 	vxRegister("H14r", H14r)
+	vxRegister("H14rT", H14rT)
 	vxRegister("H14seq", H14seq)
 }
 
@@ -39,6 +40,38 @@ func H14r() {
 	go func() { c.NearestMatch(vxVal1); wg.Done() }()
 	if !addFirst {
 		go add()
+	}
+	wg.Wait()
+	vxEvents(false)
+	vxAssert("race-free", vxRaceFree())
+	vxCover("end")
+}
+
+// H14rT: six concurrent calls (three MultipleMatch, two of them on the same value, one NearestMatch,
+// two AddValue - a new key and a duplicate key), registration before or after the matches.
+func H14rT() {
+	c := vxC14World()
+	vxTrack(c)
+	vxEvents(true)
+	var wg sync.WaitGroup
+	wg.Add(6)
+	adds := func() {
+		go func() { c.AddValue("three", "sphinx of black quartz judge my vow"); wg.Done() }()
+		go func() { c.AddValue("one", "duplicate key is rejected"); wg.Done() }()
+	}
+	order := vxChoice(3)
+	if order == 0 {
+		adds()
+	}
+	go func() { c.MultipleMatch("see " + vxVal1 + " here"); wg.Done() }()
+	go func() { c.MultipleMatch("again " + vxVal1 + " here and " + vxVal2); wg.Done() }()
+	if order == 1 {
+		adds()
+	}
+	go func() { c.MultipleMatch("sphinx of black quartz judge my vow " + vxVal2); wg.Done() }()
+	go func() { c.NearestMatch("sphinx of black quartz judge my vow"); wg.Done() }()
+	if order == 2 {
+		adds()
 	}
 	wg.Wait()
 	vxEvents(false)
